@@ -1,3 +1,4 @@
 //! Generators: proptest strategies and exhaustive enumerators.
 pub mod enumstr;
 pub mod lit;
+pub mod msg;
